@@ -43,6 +43,24 @@ Theorem c11_raising_hook_refuted : forall P w, Lifecycle.cleanup_clears_in_final
 Proof. exact raising_hook_refuted. Qed.
 Print Assumptions c11_raising_hook_refuted.
 
+(* 5c. the property's second sentence, over the requests of a side (issued at any time, answered or not, the side ending in any way):
+       once the side has ended nobody keeps waiting - every request has its value (exactly when the peer's reply was dispatched:
+       no phantom values) or fails with EOFError; a request issued after the end fails with EOFError and registers nothing.
+       What the model takes from the code: _cleanup clears the callback table (fact cleanup_hook_once_guard), serve() on a closed
+       channel raises EOFError (shape snapshots of Stream.poll / ClosedFile / Channel), _async_request on a closed channel raises
+       EOFError. Threads blocked inside poll/wait when the end comes are the scheduler scenarios of the harness, not this model. *)
+Theorem c11_ended_nobody_waits : forall P hr rc es e id, core_ok P = true -> must_end P e = true ->
+  wait_outcome (rstep P hr rc (RBase e) (rruns P hr rc es rfresh)) id <> WKeepsWaiting.
+Proof. exact ends_and_nobody_waits. Qed.
+Theorem c11_no_phantom_value : forall P hr rc es id, wait_outcome (rruns P hr rc es rfresh) id = WValue -> In (RReply id) es.
+Proof. intros P hr rc es id H. destruct (value_only_if_replied P hr rc es rfresh id H) as [[]|H']; exact H'. Qed.
+Theorem c11_issue_after_end : forall P hr rc s id w, chan_open (base s) = false ->
+  pend (rstep P hr rc (RIssue id w) s) = pend s /\ (~ In id (got s) -> wait_outcome (rstep P hr rc (RIssue id w) s) id = WEofError).
+Proof. exact issue_after_end. Qed.
+Print Assumptions c11_ended_nobody_waits.
+Print Assumptions c11_no_phantom_value.
+Print Assumptions c11_issue_after_end.
+
 (* 6. tie: the source's close/_cleanup/serve/serve_all have the guarded shapes; [c11_live] says which of 3 / 5 is live for the
       dispatch-write entry point on the current tree *)
 Theorem c11_tie : core_ok Pgen = true /\ Gen_lifecycle.handle_close_is_cleanup = true /\ Gen_lifecycle.serve_read_eof_closes = true
@@ -58,4 +76,10 @@ Example c11_histories :
   ended_clean (runs std_params false [EClose WErr; EClose WOk; EHandleClose] fresh)
   /\ ended_clean (runs std_params true [EServeReadEof InWait; EClose WOk; EDispatchEof InServeAll] fresh)
   /\ hooks (runs std_params true [EDispatchEof InWait; EHandleClose; EServeReadEof InServeAll; EClose WEof] fresh) = 1.
+Proof. vm_compute. repeat split. Qed.
+(* requests 1 and 2 issued, 1 answered, the peer closes, request 3 issued afterwards: 1 has its value, 2 and 3 fail with EOFError *)
+Example c11_requests_sample :
+  let s := rruns std_params false true [RIssue 1 WOk; RIssue 2 WOk; RReply 1; RBase EHandleClose; RIssue 3 WOk] rfresh in
+  wait_outcome s 1 = WValue /\ wait_outcome s 2 = WEofError /\ wait_outcome s 3 = WEofError /\ pend s = []
+  /\ wait_outcome (rruns std_params false true [RIssue 1 WOk] rfresh) 1 = WKeepsWaiting.
 Proof. vm_compute. repeat split. Qed.
